@@ -35,7 +35,7 @@ RULE = (
     "(1e-12 x max entry), major and both minor symmetries exact; restrict_to_cells(c) == values[..., c] (and mu, "
     "lmbda, extra fields [c]) leaving the original untouched; copy() equal, of the same type, and unaffected by "
     "in-place mutation of the original (and vice versa; the mutation is sized to the tensor's magnitude). "
-    "Non-trivial = >= 2 cells; distinct = hash of spec."
+    "Non-trivial = >= 2 cells; distinct = hash of spec. Fourth-order specs also run an operation history (restrict -> copy -> restrict, caller rebinds the entries of the dict it passed as other_fields -> copy) with the oracle applied to every intermediate tensor."
 )
 BUDGET = {"quick": {"cases": 4000, "seconds": 40}, "thorough": {"cases": 250000, "seconds": 1100}}
 TECHNIQUE = "property-based testing (Hypothesis): algebraic oracles (symmetry, similarity transform, index selection, aliasing)"
